@@ -170,6 +170,28 @@ CLAIMS["C08"] = (
     TRUSTED + "A panic-site ratchet is deliberately not used.",
     "DESIGN.md §4 C08")
 
+CLAIMS["C12"] = (
+    "static analysis: THIR shape / MIR dominance of the macro table updates, argument splitting, body substitution, "
+    "pragma-once bookkeeping, include state sharing and define installation",
+    "Decides necessary structural conditions of textual substitution: redefinition removes the old macro before pushing, "
+    "#undef and lookup go by name, arguments split on commas at nesting depth 0 only, MacroArg(i) is replaced by args[i] "
+    "and parameter references map to their own index, the rescan is bracketed by the disable flag, #pragma once files "
+    "contribute once, #include shares buffer / macros / condition chain, initial defines are object-like macros installed "
+    "before the entry file. Does NOT decide equality with a reference preprocessor over all macro programs.",
+    TRUSTED,
+    "DESIGN.md §4 C12")
+CLAIMS["C14"] = (
+    "static analysis: finite-map extraction of Token::is_whitespace over all Token variants; who-constructs / who-reads "
+    "inventory of FollowedBy; THIR shape of the line/column counter and of the per-file location reservation",
+    "Decides the structural carriers: the trivia predicate is exactly {Endline, PhysicalEndline, Whitespace, Comment} "
+    "(87 variants examined) and is the only filter before parsing and #if evaluation; adjacency is produced only by the "
+    "'<' '>' lexers and read only by the operator / template-argument parsers, plus the untrimmed '(' test of "
+    "function-like macros; newline increments the line and resets the column, every other byte increments the column, "
+    "first() is 1; add_file and both decoders reserve file_size + 1 locations. Does NOT decide output invariance under "
+    "trivia insertion or the k-line shift of diagnostics as such.",
+    TRUSTED,
+    "DESIGN.md §4 C14")
+
 NOT_YET = "rules for this property are not built yet in this round (see DESIGN.md §10 build order); no claim is made"
 
 
